@@ -90,6 +90,12 @@ def build(spec, wire):
                     op["args"] = [0.5, transform(tr[1])]
                 if tr[0] in ("kw", "both"):
                     op["kwargs"] = {"phi": transform(tr[1]), "x": 1}
+        if tr is not None:
+            # strings are plain values whatever they spell: no dependency comes from them
+            if idx % 2 == 0:
+                op["kwargs"] = dict(op["kwargs"], tag="q0")
+            else:
+                op["args"] = list(op["args"]) + ["2*q1+q2"]
         prog._operations.append(op)
         per_op.append(wires)
     return prog, per_op
